@@ -6,7 +6,7 @@ from facts import callee_path, is_param_call
 from model import short
 from rules_sched import (CHILDREN, PARENTS, NODE_INDEX, NODE_COUNT_FNS, ALL_NODE_SOURCES, elem_read, node_index_arg, is_const,
                          const_val, sources_of_expr, stores_through_index, structure_roles, iterator_chain, closure_of_arg,
-                         return_expr, same_value, cond_guards, NEUTRAL_ITER, SELECTIVE_ITER, loop_region)
+                         return_expr, same_value, cond_guards, NEUTRAL_ITER, SELECTIVE_ITER, loop_region, POP_DRIVERS)
 
 UPDATE_EDGE = "daggy::Dag::<N, E, Ix>::update_edge"
 ADD_EDGE = "daggy::Dag::<N, E, Ix>::add_edge"
@@ -730,6 +730,31 @@ def seen_flag_reset(ctx, cm):
     return False, "no `fill(false)` of the flag vector dominating the inner enumeration in %s" % short(ob.id)
 
 
+# `list.iter().skip(position)` is the slice `list[position..]` written as an adaptor: where it starts is judged by R6 / D2
+# (inner-range), which every property using R2 also runs
+RANGE_SKIP = "std::iter::Iterator::skip"
+
+
+def inner_range_start(ctx, chain):
+    """(ok, start expression, list sources, why) for an inner iteration `list[start..]` or `list.iter().skip(start)`"""
+    idxs = [(p2, cb, e) for p2, cb, e in chain if p2 in ("std::ops::Index::index",)]
+    skips = [(p2, cb, e) for p2, cb, e in chain if p2 == RANGE_SKIP]
+    if idxs and not skips:
+        p2, cb, e = idxs[-1]
+        rng = strip_refs(e[2][1])
+        if rng.kind == "agg" and rng[2] == "std::ops::RangeFrom":
+            return True, strip_refs(rng[4][0]), sources_of_expr(ctx, cb, e[2][0]), ""
+        if rng.kind == "agg":
+            return False, None, frozenset(), "inner iteration ranges over `%s` (not the positions from the outer element on)" % fmt_expr(rng, cb)
+        return False, None, frozenset(), "inner iteration is not list[index..]"
+    if len(skips) == 1 and not idxs and chain:
+        p2, cb, e = skips[0]
+        leaf = chain[-1]
+        if not leaf[0].startswith("leaf:") and leaf[2].kind == "call" and leaf[2][2]:
+            return True, strip_refs(e[2][1]), sources_of_expr(ctx, leaf[1], leaf[2][2][0]), ""
+    return False, None, frozenset(), "inner iteration is not list[index..]"
+
+
 def R2_chain_filters(ctx, rule, cm):
     """filters on the two enumerations may only compare the two ids"""
     m, fl = ctx.model, ctx.model.flow
@@ -756,7 +781,7 @@ def R2_chain_filters(ctx, rule, cm):
                     "the pair enumeration loop can be left early (break/return): later pairs are not examined")
         chain = iterator_chain(ctx, b, lr["iter_expr"]) if lr.get("iter_expr") is not None else []
         for p2, cb, e in chain:
-            if p2 in SELECTIVE_ITER and p2 != "std::iter::Iterator::filter":
+            if p2 in SELECTIVE_ITER and p2 not in ("std::iter::Iterator::filter", RANGE_SKIP):
                 ctx.bad(rule, "narrowed|%s" % short(cb.id), m.where(cb), "the pair enumeration is narrowed by %s" % p2)
             elif p2 == "std::iter::Iterator::filter":
                 check_id_filter(ctx, rule, cb, e)
@@ -795,7 +820,7 @@ def R2_chain_filters(ctx, rule, cm):
                 ctx.check(ok, rule, "filter|%s" % short(cb.id), m.where(cb),
                           "the only filter on the pair enumeration is identity of the two ids (`a != b`)",
                           "the pair enumeration is filtered by something other than id identity: %s" % why)
-            elif p2 in SELECTIVE_ITER and p2 != "std::iter::Iterator::filter":
+            elif p2 in SELECTIVE_ITER and p2 not in ("std::iter::Iterator::filter", RANGE_SKIP):
                 ctx.bad(rule, "narrowed|%s" % short(cb.id), m.where(cb), "the pair enumeration is narrowed by %s" % p2)
         x = pb if pb.kind == "closure" else None
 
@@ -936,7 +961,16 @@ def R4(ctx, rule="R4"):
                         names = [c[0] for c in chain]
                         srcs = [c for c in names if c in ("daggy::Dag::<N, E, Ix>::raw_edges", "daggy::Dag::<N, E, Ix>::raw_nodes")]
                         sel = [c for c in names if c in SELECTIVE_ITER]
-                        if srcs and not sel:
+                        rng = [c for c in chain if c[0] == "leaf:agg" and c[2][2] == "std::ops::Range"]
+                        full_range = False
+                        if rng and "add_node" in p:
+                            # `(0..graph.node_count()).for_each(|_| structure.add_node(()))`
+                            r_ = rng[0][2]
+                            full_range = is_const(strip_refs(r_[4][0]), 0) and strip_refs(r_[4][1]).kind == "call" and strip_refs(r_[4][1])[1] in NODE_COUNT_FNS
+                        if (srcs or full_range) and not sel and callee_path(ut) in ("std::iter::Iterator::for_each", "std::iter::Iterator::try_for_each", "std::iter::Iterator::fold") \
+                                and not cond_guards(x, bb):
+                            ok = True
+                        elif srcs and not sel:
                             ok = True
                         else:
                             why = "iteration chain %s" % names
@@ -1121,13 +1155,20 @@ def ID_rules(ctx, rule="ID"):
             continue
         n += 1
         scalar = out.startswith("daggy::NodeIndex") or out.startswith("petgraph::graph::NodeIndex")
-        srcs = fl.sources_local(b, 0, () if scalar else ("E",))
+        srcs = fl.sources_local(b, 0, ())
         where = b.id
         bad, placeholders = [], []
+        # private helpers called from this method (`try_map_array(items, |f| ..)`) may own the array being filled
+        helpers = {}
+        for bx in [b] + [x for x in fb.prod_bodies() if x.kind == "closure" and x.id.startswith(b.id + "::")]:
+            for hbb, ht in bx.calls():
+                hp = callee_path(ht)
+                if hp in fb.bodies and fb.bodies[hp].kind == "fn" and not (fb.fns.get(hp) or {}).get("public") and hp != b.id:
+                    helpers.setdefault(hp, []).append((bx, hbb, ht))
         for s_ in srcs:
             if s_.kind == "alloc" and s_[4] in ADD_NODE:
                 continue
-            if not scalar and s_.kind == "alloc" and s_[1] == b.id and s_[4] in ("std::default::Default::default",):
+            if not scalar and s_.kind == "alloc" and (s_[1] == b.id or s_[1] in helpers) and s_[4] in ("std::default::Default::default",):
                 placeholders.append(s_)
                 continue
             if not scalar and s_.kind == "const":
@@ -1160,6 +1201,27 @@ def ID_rules(ctx, rule="ID"):
                         ub, ubb, ut, ai = uses[0]
                         sel = [c[0] for c in iterator_chain(ctx, ub, expr_operand(ub, ut["args"][0])) if c[0] in SELECTIVE_ITER]
                     over.append((v_ok and drv_ok and not sel, "slot <- %s%s" % (sorted(fmt_src(x) for x in vsrc)[:2], " narrowed by %s" % sel if sel else "")))
+            for hp, hsites in sorted(helpers.items()):
+                hb = fb.bodies[hp]
+                for bb, si, st in hb.stmts():
+                    if st["k"] != "assign" or st["pl"]["p"] != ["*"]:
+                        continue
+                    tsrc = fl.sources_local(hb, st["pl"]["l"], ())
+                    if not (tsrc and all(x.kind == "alloc" and (x[1], x[2]) in pk and "$item" in x[3] for x in tsrc)):
+                        continue
+                    summ = fl.sources_operand(hb, st["rv"]["op"], (), "prov@" + hp) if st["rv"]["k"] == "use" else frozenset()
+                    v_ok = bool(summ)
+                    seen_v = set()
+                    for (cbx, cbb, ct) in hsites:
+                        inst = fl.instantiate_summary(cbx, ct, hp, summ)
+                        seen_v |= {fmt_src(x) for x in inst}
+                        if not inst or not all(x.kind == "alloc" and x[4] in ADD_NODE for x in inst):
+                            v_ok = False
+                    lr_ = loop_region(ctx, hb, bb)
+                    sel = []
+                    if lr_ is not None and lr_.get("iter_expr") is not None:
+                        sel = [c[0] for c in iterator_chain(ctx, hb, lr_["iter_expr"]) if c[0] in SELECTIVE_ITER]
+                    over.append((v_ok and not sel, "slot <- %s (through helper %s)%s" % (sorted(seen_v)[:2], short(hp), " narrowed by %s" % sel if sel else "")))
             if not over:
                 bad.append("placeholder elements are never overwritten with add_node results")
             elif not all(o[0] for o in over):
@@ -1465,19 +1527,7 @@ def D2(ctx, rule="D2"):
     b_src = sources_of_expr(ctx, b, cm["b"])
     # inner chain
     chain = iterator_chain(ctx, ob, expr_operand(ob, ut["args"][0]))
-    idxs = [(p2, cb, e) for p2, cb, e in chain if p2 in ("std::ops::Index::index",)]
-    ok_inner = False
-    why = "inner iteration is not list[index..]"
-    outer_idx = None
-    if idxs:
-        p2, cb, e = idxs[-1]
-        rng = strip_refs(e[2][1])
-        if rng.kind == "agg" and rng[2] == "std::ops::RangeFrom":
-            outer_idx = strip_refs(rng[4][0])
-            ok_inner = True
-            list_inner = sources_of_expr(ctx, cb, e[2][0])
-        elif rng.kind == "agg" and rng[2] in ("std::ops::Range", "std::ops::RangeTo", "std::ops::RangeInclusive", "std::ops::RangeToInclusive"):
-            why = "inner iteration ranges over `%s` (positions before the outer element)" % fmt_expr(rng, cb)
+    ok_inner, outer_idx, list_inner, why = inner_range_start(ctx, chain)
     ctx.check(ok_inner, rule, "inner-range", m.where(ob, ubb), "the inner iteration ranges over list[outer_index..] (later positions only)", why)
     if not ok_inner:
         return
@@ -1565,21 +1615,8 @@ def D2_loops(ctx, rule, cm, lr_in, lr_out):
     b, bb, t, p = cm["site"]
     where = m.where(b, bb)
     ichain = iterator_chain(ctx, b, lr_in["iter_expr"])
-    idxs = [(p2, cb, e) for p2, cb, e in ichain if p2 in ("std::ops::Index::index",)]
-    ok_inner = False
-    why = "inner iteration is not list[index..]"
-    outer_idx = None
-    list_inner = frozenset()
-    if idxs:
-        p2, cb, e = idxs[-1]
-        rng = strip_refs(e[2][1])
-        if rng.kind == "agg" and rng[2] == "std::ops::RangeFrom":
-            outer_idx = strip_refs(rng[4][0])
-            ok_inner = True
-            list_inner = sources_of_expr(ctx, cb, e[2][0])
-        elif rng.kind == "agg":
-            why = "inner iteration ranges over `%s`" % fmt_expr(rng, cb)
-    sel = [p2 for p2, cb, e in ichain if p2 in SELECTIVE_ITER or p2 == "std::iter::Iterator::rev"]
+    ok_inner, outer_idx, list_inner, why = inner_range_start(ctx, ichain)
+    sel = [p2 for p2, cb, e in ichain if (p2 in SELECTIVE_ITER and p2 != RANGE_SKIP) or p2 == "std::iter::Iterator::rev"]
     ctx.check(ok_inner and not sel, rule, "inner-range", m.where(b, lr_in["next_bb"]),
               "the inner loop ranges over list[outer_index..] (later positions only), in list order", why if not ok_inner else "inner iteration adaptors %s" % sel)
     if not ok_inner:
@@ -1763,6 +1800,45 @@ def D4(ctx, rule="D4"):
                             attrs.add("node_count")
                         if c.kind == "call" and c[1].endswith("::edge_count"):
                             attrs.add("edge_count")
+    # `a.eq(b)` over two iterators: elementwise equality of the full sequences; what an element consists of is read off the
+    # iterator chains (a `map` to (source(), target(), weight), the node weights of iter_insertion())
+    iter_eqs = []
+    for bid in sorted(m.reach(eqb.id)):
+        b = fb.bodies[bid]
+        for bb, t in b.calls():
+            if callee_path(t) != "std::iter::Iterator::eq" or len(t["args"]) < 2:
+                continue
+            sides = []
+            for a in t["args"][:2]:
+                chain = iterator_chain(ctx, b, expr_operand(b, a))
+                names = [c[0] for c in chain]
+                at = set()
+                for c in chain:
+                    if c[0] == "std::iter::Iterator::map" and len(c[2][2]) > 1:
+                        fcl = closure_of_arg(ctx, c[1], c[2][2][1])
+                        re_ = return_expr(fcl) if fcl is not None else None
+                        if re_ is not None:
+                            for x in walk_expr(re_):
+                                if x.kind == "call" and x[1].endswith("Edge::<E, Ix>::source"):
+                                    at.add("source")
+                                if x.kind == "call" and x[1].endswith("Edge::<E, Ix>::target"):
+                                    at.add("target")
+                            if re_.kind == "agg":
+                                for o in re_[4]:
+                                    o = strip_refs(o)
+                                    if o.kind == "field" and o[2] == "weight" or (o.kind == "field" and isinstance(o[2], int) and
+                                                                                  any(y.kind == "arg" for y in walk_expr(o)) and not any(y.kind == "call" for y in walk_expr(o))):
+                                        at.add("weight")
+                if any(n_.startswith("inline:") and n_.endswith("::iter_insertion") for n_ in names) or (
+                        any("node_weights" in n_ or "node_references" in n_ or "raw_nodes" in n_ for n_ in names) and
+                        not any(n_ == "std::iter::Iterator::map" for n_ in names)):
+                    at.add("function")
+                sel = [n_ for n_ in names if n_ in SELECTIVE_ITER]
+                sides.append((at, sel, [n_ for n_ in names if not n_.startswith("inline:")]))
+            iter_eqs.append((b, bb, t, sides))
+    for (b, bb, t, sides) in iter_eqs:
+        if sides[0][0] == sides[1][0] and sides[0][2] == sides[1][2]:
+            attrs |= sides[0][0]
     where = m.where(eqb)
     for a in ("node_count", "source", "target", "weight", "function"):
         ctx.check(a in attrs, rule, "compares|%s" % a, where, "FnGraph == compares %s" % a,
@@ -1784,6 +1860,30 @@ def D4(ctx, rule="D4"):
                     ctx.check(okc, rule, "conjunctive|%d" % zips, m.where(b, bb),
                               "the pairwise comparison is a conjunction: one unequal pair makes the result false (%s)" % whyc,
                               "the pairwise comparison is not a conjunction over all pairs: %s" % whyc)
+    if iter_eqs:
+        # every `a.eq(b)` result is a conjunct of the returned value: on each path to the return, the result is `false`, or is the
+        # comparison itself, or the comparison was found true on the way
+        pcs_all = []
+        for xb in eqb.exits():
+            pcs_all += (path_conditions(eqb, xb, ret_local=0) or [{"$ret": ("unknown", "too many paths")}])
+        for (b, bb, t, sides) in iter_eqs:
+            zips += 1
+            ctx.check(not sides[0][1] and not sides[1][1] and sides[0][2] == sides[1][2], rule, "zip-unfiltered|%d" % zips, m.where(b, bb),
+                      "elementwise comparison (Iterator::eq) of two unfiltered sequences built the same way",
+                      "Iterator::eq compares differently built / narrowed sequences: %s vs %s" % (sides[0][2], sides[1][2]))
+            okc = b.id == eqb.id and bool(pcs_all)
+            sym = ("call", bb)
+            for pc in pcs_all:
+                ret = pc.get("$ret")
+                is_false = ret is not None and ret[0] == "const" and str(ret[1]) in ("0", "false")
+                if is_false or ret == sym:
+                    continue
+                v = pc.get(sym)
+                if v is None or v == "0":
+                    okc = False
+            ctx.check(okc, rule, "conjunctive|%d" % zips, m.where(b, bb),
+                      "the elementwise comparison is a conjunct of the result: whenever it is false, == returns false",
+                      "== can return true although this elementwise comparison was false or never made")
     ctx.check(zips >= 2, rule, "zips", where, "edges and functions are compared pairwise (2 zipped sequences)", "expected 2 zipped comparisons, found %d" % zips)
 
 
@@ -2174,6 +2274,12 @@ def keep_polarity(ctx, fcl, adaptor):
     if adaptor == "std::iter::Iterator::filter":
         re_ = return_expr(fcl)
         return emptiness_polarity(ctx, fcl, re_) if re_ is not None else None
+    # filter_map(|x| pred(x).then_some(x)): kept exactly when the predicate is true
+    re0 = return_expr(fcl)
+    if re0 is not None:
+        r0 = strip_refs(re0)
+        if r0.kind == "call" and r0[1].endswith(("::then_some", "bool::then")) and r0[2]:
+            return emptiness_polarity(ctx, fcl, r0[2][0])
     # filter_map: the `Some` result is control dependent on the predicate
     for kind, dbb, si, x in get_defs(fcl).of(0):
         if kind == "stmt" and x["rv"]["k"] == "agg" and x["rv"].get("variant") == "Some":
@@ -2230,10 +2336,12 @@ def C13_rules(ctx, rule="K"):
         b, hdr, loop, popbb, q = wl[0]
         seeds_ok = False
         why = "work queue is not a collect() of the nodes without parents"
-        colls = [s for s in q if s.kind == "alloc" and s[4] == "std::iter::Iterator::collect" and s[1] == rc.id and not s[3]]
+        helper_ids = {bx.id for bx in m.reach_bodies(rc.id) if bx.kind == "fn" and not (fb.fns.get(bx.id) or {}).get("public")} | {rc.id}
+        colls = [s for s in q if s.kind == "alloc" and s[4] == "std::iter::Iterator::collect" and s[1] in helper_ids and not s[3]]
         if len(colls) == 1:
-            ct = rc.blocks[colls[0][2]]["term"]
-            chain = iterator_chain(ctx, rc, expr_operand(rc, ct["args"][0]))
+            cbody = fb.bodies[colls[0][1]]      # the rank calculation itself or a private helper that builds the queue
+            ct = cbody.blocks[colls[0][2]]["term"]
+            chain = iterator_chain(ctx, cbody, expr_operand(cbody, ct["args"][0]))
             names = [c[0] for c in chain]
             srcn = [n for n in names if n in ALL_NODE_SOURCES]
             filt = [(p, cb, e) for p, cb, e in chain if p in ("std::iter::Iterator::filter_map", "std::iter::Iterator::filter")]
@@ -2354,7 +2462,7 @@ def C13_rules(ctx, rule="K"):
                 continue
             skip = ()
             for depth in range(3):
-                lr_ = loop_region(ctx, bx, st["bb"], skip_headers=skip)
+                lr_ = loop_region(ctx, bx, st["bb"], skip_headers=skip, extra_drivers=POP_DRIVERS)
                 if lr_ is None:
                     break
                 ctx.check(not lr_["early_exits"], rule + "4", "walk-complete|%s|%d" % (short(bx.id), depth), m.where(bx, lr_["next_bb"]),
@@ -2501,11 +2609,51 @@ def per_element_insertion(ctx, M, ins):
             return False, "per-element closure is not passed to one consumer"
         pb, ubb, ut, ai = uses[0]
         cons = callee_path(ut)
-        if cons not in ("std::iter::Iterator::try_for_each", "std::iter::Iterator::try_fold"):
+        hsites = fl.internal_callback_sites(L) if cons in fb.bodies else []
+        if cons in fb.bodies and len(hsites) == 1 and hsites[0][0].kind == "fn" and not (fb.fns.get(cons) or {}).get("public"):
+            # the closure is handed to a private generic helper (`try_map_array(edges, |(from, to)| ..)`) that calls it once per
+            # element of the array it is given, in a loop that stops at the first error
+            H, hbb, ht = hsites[0]
+            lr = loop_region(ctx, H, hbb)
+            if lr is None:
+                return False, "helper %s does not call the per-element closure inside a loop over the array" % short(H.id)
+            for (x, s_) in lr["early_exits"]:
+                fr = [bb2 for bb2, t2 in H.calls() if callee_path(t2) == "std::ops::FromResidual::from_residual"]
+                if not fr or not H.all_paths_pass(s_, fr, H.exits()):
+                    return False, "the helper's loop can be left early without returning the error"
+            if [g for g in cond_guards(H, hbb) if g[0] in lr["blocks"] and g[0] != lr.get("switch_bb")]:
+                return False, "the helper calls the per-element closure conditionally"
+            tb = [bb2 for bb2, t2 in H.calls() if callee_path(t2) == "std::ops::Try::branch" and bb2 in lr["blocks"]]
+            nxt = H.blocks[hbb]["term"].get("target")
+            if nxt is None or not H.all_paths_pass(nxt, tb, [lr["next_bb"]]):
+                return False, "the helper goes on to the next element without examining the closure's result (`?`)"
+            # the element given to the closure is the loop item, the loop runs over the array parameter that receives `edges`
+            item_ok = False
+            if len(ht["args"]) > 1:
+                ae = strip_refs(expr_operand(H, ht["args"][1]))
+                if ae.kind == "agg" and ae[4]:
+                    ae = strip_refs(ae[4][0])
+                ip = loop_item_path(ae)
+                item_ok = ip is not None and ip[0] == lr["next_bb"]
+            chain = iterator_chain(ctx, H, lr["iter_expr"]) if lr.get("iter_expr") is not None else []
+            arr_params = {s_[2] for c_ in chain if not c_[0].startswith("leaf:") and c_[2].kind == "call" and c_[2][2]
+                          for s_ in sources_of_expr(ctx, c_[1], c_[2][2][0], mode="prov@" + H.id) if s_.kind == "param" and s_[1] == H.id and not s_[3]}
+            arr_ok = False
+            for ap in arr_params:
+                if ap - 1 < len(ut["args"]):
+                    asrc = fl.sources_operand(pb, ut["args"][ap - 1])
+                    if asrc and all(q.kind == "param" and q[1] == M.id and q[2] == 2 and not q[3] for q in asrc):
+                        arr_ok = True
+            if not (item_ok and arr_ok):
+                return False, "helper %s: closure applied to the loop item: %s, loop over this method's edge array: %s" % (short(H.id), item_ok, arr_ok)
+            if cond_guards(L, site_bb) or L.back_edges():
+                return False, "the insertion is conditional / repeated inside the per-element closure"
+        elif cons not in ("std::iter::Iterator::try_for_each", "std::iter::Iterator::try_fold"):
             return False, "does not use a short-circuiting try_for_each over the edges (%s)" % cons
-        chain = iterator_chain(ctx, pb, expr_operand(pb, ut["args"][0]))
-        if cond_guards(L, site_bb) or L.back_edges():
-            return False, "the insertion is conditional / repeated inside the per-element closure"
+        else:
+            chain = iterator_chain(ctx, pb, expr_operand(pb, ut["args"][0]))
+            if cond_guards(L, site_bb) or L.back_edges():
+                return False, "the insertion is conditional / repeated inside the per-element closure"
     else:
         lr = loop_region(ctx, L, site_bb)
         if lr is None:
